@@ -24,16 +24,34 @@ def run_witness(crate, name, keep=False, scratch=None, timeout=1200):
         (scratch / ".cargo" / "config.toml").write_text(
             '[net]\noffline = true\n[build]\nrustflags = ["--cfg", "tokio_unstable"]\n')
         wdir = VERIF / "witness" / crate
+        internal = False
         for f in wdir.glob("*.rs"):
-            shutil.copy(f, scratch / "crates" / crate / "tests" / f.name)
+            if f.name.startswith("internal__"):
+                # crate-internal witness: #[cfg(test)] child module of the named source file
+                rel = f.name[len("internal__"):-3].replace("__", "/") + ".rs"
+                dst = scratch / "crates" / crate / "src" / ("verif_witness_" + f.name)
+                shutil.copy(f, dst)
+                with open(scratch / "crates" / crate / "src" / rel, "a") as fh:
+                    fh.write("\n#[cfg(test)] #[path = \"%s\"] mod verif_witness_internal;\n" % dst)
+                if name in f.read_text():
+                    internal = True
+            else:
+                (scratch / "crates" / crate / "tests").mkdir(exist_ok=True)
+                shutil.copy(f, scratch / "crates" / crate / "tests" / f.name)
         env = dict(os.environ)
         env["CARGO_NET_OFFLINE"] = "true"
         # share one target dir across witness runs (plain native build; much faster the second time)
         env["CARGO_TARGET_DIR"] = str(VERIF / ".cache" / "witness-target")
-        cmd = ["cargo", "test", "--offline", "-p", crate, "--test", "verif_witness"]
-        if FEATURES.get(crate):
-            cmd += ["--features", FEATURES[crate]]
-        cmd += ["--", "--exact", name, "--test-threads", "1"]
+        if internal:
+            cmd = ["cargo", "test", "--offline", "-p", crate, "--lib"]
+            if FEATURES.get(crate):
+                cmd += ["--features", FEATURES[crate]]
+            cmd += ["--", name, "--test-threads", "1"]
+        else:
+            cmd = ["cargo", "test", "--offline", "-p", crate, "--test", "verif_witness"]
+            if FEATURES.get(crate):
+                cmd += ["--features", FEATURES[crate]]
+            cmd += ["--", "--exact", name, "--test-threads", "1"]
         p = subprocess.run(cmd, cwd=scratch, env=env, stdout=subprocess.PIPE, stderr=subprocess.STDOUT,
                            timeout=timeout, text=True)
         out = p.stdout
